@@ -35,7 +35,7 @@ impl Typescript {
         &self,
         tld: ToplevelTypeDefinition,
     ) -> Result<String, GeneratorError> {
-        if let ASN1Type::Integer(_) = tld.ty {
+        if let ASN1Type::Integer(_) | ASN1Type::Real(_) = tld.ty {
             Ok(number_like_template(
                 &format_comments(&tld.comments),
                 &to_jer_identifier(&tld.name),
@@ -43,7 +43,7 @@ impl Typescript {
         } else {
             Err(GeneratorError::new(
                 Some(ToplevelDefinition::Type(tld)),
-                "Expected INTEGER top-level declaration",
+                "Expected INTEGER or REAL top-level declaration",
                 GeneratorErrorType::Asn1TypeMismatch,
             ))
         }
